@@ -44,6 +44,9 @@ def handleCase (toks : List String) (impl : String) : Verdict :=
           | tag :: cls :: rest =>
             let item := ":".toList.intercalate rest
             if tag ≠ "diff".toList then { model := "same", agree := false, oracle := some "run-error" }
+            else if cls = "fresh-oauthlookup".toList then
+              -- the oauth2-proxy lookup reads paths of other ingresses that the tracker does not link (known finding)
+              { model := "outside-fragment", agree := true, oracle := some "order-dependent-config-fresh-oauthlookup" }
             else if cls = "fresh-authscheme".toList then
               -- the shared auth backend of an ip:port reached with both schemes keeps `ssl` after its https user is gone:
               -- auth backends (their sharing, their life time) are outside the M-Sync fragment; the Spec still fails
